@@ -2,40 +2,61 @@
    its value when more bytes arrive") of the executable model of the generated C++ views.
 
    Proved here:
-     prefix_stable_partial            r ⊑ r' (hereditary information order [fle]) under [wf_stable m]
+     prefix_stable_partial            r ⊑ r' (typed hereditary information order [flet]) under [wf_stable m];
+                                      nested structures may be PARAMETERISED (Par(x) p)
+     prefix_stable_strict             r ⊑ r' in the strict order [fle] (every has flag kept) when, in
+                                      addition, no structure used as a field type has parameters
      prefix_stable_refuted_array      F9: ElementCount / array Ok() come from the clamped storage
-     prefix_stable_refuted_null_order "null-byte-order-short-buffer": a Null-ordered 1-byte field
-                                      past the end of the buffer is Ok and its value changes
-     prefix_stable_refuted_param_flag has_p() of a parameter of a NESTED view is
-                                      Maybe<bool>(parameters_initialized_): Known(false) on the
-                                      default-constructed view, Known(true) once the field is located
+     prefix_stable_refuted_param_flag the strict order fails inside the class: has_p() of a parameter of a
+                                      NESTED view is Maybe<bool>(parameters_initialized_): Known(false) on
+                                      the default-constructed view, Known(true) once the field is located.
+                                      The accessor is private in the generated code (the harness sees it
+                                      through "#define private public"); [flet] lets exactly this flag of
+                                      the parameter slots of a nested view go false -> true, nothing else.
      const_size_hypothesis_forced     (model only) a scalar with a dynamic [+n] size goes Ok -> not Ok
+     present_of_parameter_hypothesis_forced
+                                      (model only) a field of a nested view conditioned on
+                                      $present(parameter) has has_y() Known(false) -> Known(true)
      prefix_stable_top                readable corollary: Ok / IsComplete / size / has_x / x().Ok() / Read()
      wf_stable_example*               the hypotheses are satisfiable and the conclusion not vacuous
+                                      (wf_stable_example_param*: a parameterised nested structure)
    Nothing is missing from the mutual induction: [both_stable] closes eval_struct and eval_type
    simultaneously for every fuel; the only restrictions are those of [wf_stable].
 
+   The order.  [fle] is the strict hereditary order on result trees.  [flet m w od r r'] types the
+   entries of a view by the fields of its structure definition od: an entry of a Phys field is compared
+   by [flet m true (its target)], of a Virt / Alias field by [fle], of a Param field by [ple w]: strict
+   when w = false (top level, or both sides initialised alike), and "has: Known(true) stays; ok/value
+   as usual" when w = true (a nested view).  The arguments of a nested view are [meval]-ed in the
+   parent's environment: a known argument keeps its value, an unknown one may become known
+   ([argvals_known_t], [pvals_rel]).
+
    Hypotheses of [wf_stable] and why each is forced:
      * no FArray                      refuted (F9)
-     * no NullBO                      refuted (null-byte-order-short-buffer)
+     * no NullBO                      stronger than needed since fix c90547c
      * scalar in a byte structure has a constant size s with 8*s = kbits; a field adapted to a
        BitBlock (adapt = Some (n, bo)) has constant size s with 8*s = n:
                                       BitBlock::Ok() is "clamped size * 8 == n" — with a dynamic
                                       [+k] size the clamped size can pass through n on a prefix and
                                       be larger afterwards, so Ok would go true -> false.
-     * a structure used as a field type has no Param fields
-                                      refuted (param flag); the accessor is private in the
-                                      generated code, the harness sees it through
-                                      "#define private public".
-     * an Alias field's type is a scalar
+     * no XHas path that designates a parameter slot ([vx_ok], [has_weak])
+                                      forced in the model (present_of_parameter_hypothesis_forced); the
+                                      front end folds $present(parameter) to true, so no translated
+                                      module contains it.
+     * a structure with Param fields has 0 < nparams
+                                      (the translator emits exactly nparams Param fields) — otherwise an
+                                      uninitialised view could be Ok.
+     * an Alias field's type is a scalar and its path does not designate a structure-typed field
                                       MODEL ARTEFACT, not a finding: the default-constructed view
                                       "decltype(aliased)()" is evaluated with the fuel of the
                                       aliasing structure, the aliased view (reached through a path
                                       of length 2 for anonymous bits) with two units less; for a
                                       structure-typed alias the two trees can differ in depth when
-                                      the fuel runs out.
-   NOT needed (so not required): "a bits-typed field of a byte structure has adapt = Some";
-   nothing about [order], [size_field], path well-formedness, or fuel adequacy. *)
+                                      the fuel runs out.  (The translator takes the alias type from the
+                                      aliased field, so the two conditions coincide on translated modules.)
+   NOT needed (so not required): "a structure used as a field type has no Param fields" (required by the
+   earlier version), "a bits-typed field of a byte structure has adapt = Some";
+   nothing about [order], [size_field], argument counts, or fuel adequacy. *)
 From Coq Require Import ZArith List Bool Lia ZifyBool.
 Import ListNotations.
 Require Import EmbossV.Bounds.Model EmbossV.View.Model EmbossV.View.Proofs.
@@ -161,6 +182,114 @@ Lemma eval_struct_S m bytes f d ps pinit st :
   finish d pinit st (fold_left (vstep m bytes f d ps pinit st) d.(order) (map (fun _ => None) d.(fields))).
 Proof. reflexivity. Qed.
 
+(* ---------- the typed order: parameter slots of a nested view ---------- *)
+(* has_p() of a parameter of a NESTED view is Maybe<bool>(parameters_initialized_): Known(false) on the
+   default-constructed view, Known(true) once the field is located ([prefix_stable_refuted_param_flag];
+   the accessor is private in the generated code).  [flet] is [fle] except that this one flag of the
+   parameter slots of a nested view may go from Known(false) to Known(true); the entries of a view
+   are typed by the fields of its structure definition, so every other has_x() flag stays strict. *)
+Definition sub_of_ty (m : module) (ty : ftype) : option sdef :=
+  match ty with FStruct tid _ _ => nth_error m tid | _ => None end.
+Definition odfields (od : option sdef) : list field :=
+  match od with Some d => fields d | None => [] end.
+
+(* everything but the has flag *)
+Definition fle0 (r r' : fres) : Prop := fle (with_has None r) r'.
+(* the entry of a Param field; w: the view may still be default-constructed on the left *)
+Definition ple (w : bool) (a a' : fres) : Prop :=
+  if w then (fr_has a = Some true -> fr_has a' = Some true) /\ fle0 a a' else fle a a'.
+
+Section TList.
+  Variable m : module.
+  Variable R : option sdef -> fres -> fres -> Prop.
+  Variable w : bool.
+  Definition krel (of : option field) (a a' : fres) : Prop :=
+    match of with
+    | Some f =>
+        match fbody_of f with
+        | Param _ => ple w a a'
+        | Phys _ _ ty _ => R (sub_of_ty m ty) a a'
+        | _ => fle a a'
+        end
+    | None => fle a a'
+    end.
+  Fixpoint tlist_le (fs : list field) (l l' : list (option fres)) {struct l} : Prop :=
+    match l with
+    | [] => True
+    | x :: t =>
+        match l' with
+        | [] => False
+        | x' :: t' =>
+            match x with
+            | None => True
+            | Some a => match x' with Some a' => krel (hd_error fs) a a' | None => False end
+            end /\ tlist_le (tl fs) t t'
+        end
+    end.
+End TList.
+
+(* w = false: the view is initialised on both sides or on neither (top level: same pinit) *)
+Fixpoint flet (m : module) (w : bool) (od : option sdef) (r r' : fres) {struct r} : Prop :=
+  match r with
+  | FR h o v st sub sok sc ss els =>
+      mle h (fr_has r') /\
+      (o = true -> fr_ok r' = true /\ fr_val r' = v) /\
+      (sok = true -> fr_sok r' = true) /\
+      (sc = true -> fr_scomplete r' = true) /\
+      mle ss (fr_ssize r') /\
+      tlist_le m (flet m true) w (odfields od) sub (fr_sub r') /\
+      list_le fle els (fr_elems r')
+  end.
+
+Definition env_relt (m : module) (w : bool) (fs : list field) (e e' : env) : Prop :=
+  tlist_le m (flet m true) w fs e e'.
+
+(* the field a path designates (through structure-typed physical fields) *)
+Fixpoint resolve (m : module) (fs : list field) (p : list nat) {struct p} : option field :=
+  match p with
+  | [] => None
+  | i :: rest =>
+      match rest with
+      | [] => nth_error fs i
+      | _ :: _ =>
+          match nth_error fs i with
+          | Some f =>
+              match fbody_of f with
+              | Phys _ _ ty _ => resolve m (odfields (sub_of_ty m ty)) rest
+              | _ => None
+              end
+          | None => None
+          end
+      end
+  end.
+
+Definition is_param (f : field) : bool := match fbody_of f with Param _ => true | _ => false end.
+(* the path designates a parameter slot *)
+Definition has_weak (m : module) (fs : list field) (p : list nat) : bool :=
+  match resolve m fs p with Some f => is_param f | None => false end.
+(* the path does not designate a structure-typed field *)
+Definition path_plain (m : module) (fs : list field) (p : list nat) : bool :=
+  match resolve m fs p with
+  | Some f => match fbody_of f with
+              | Phys _ _ ty _ => match sub_of_ty m ty with None => true | Some _ => false end
+              | _ => true
+              end
+  | None => true
+  end.
+
+(* no $present() of a parameter slot (the front end folds $present(parameter) to true) *)
+Fixpoint vx_ok (m : module) (fs : list field) (x : vx) {struct x} : bool :=
+  match x with
+  | XK _ | XField _ | XSelf => true
+  | XHas p => negb (has_weak m fs p)
+  | XAdd a b | XSub a b | XMul a b | XAnd a b | XOr a b => vx_ok m fs a && vx_ok m fs b
+  | XCmp _ a b | XEq _ a b => vx_ok m fs a && vx_ok m fs b
+  | XChoice c t f => vx_ok m fs c && vx_ok m fs t && vx_ok m fs f
+  | XMax args => forallb (vx_ok m fs) args
+  end.
+Definition ovx_ok (m : module) (fs : list field) (o : option vx) : bool :=
+  match o with Some x => vx_ok m fs x | None => true end.
+
 (* ---------- well-formedness (decidable) ---------- *)
 Definition is_const_size (size : vx) (bits : Z) : bool :=
   match size with XK (VInt s) => 8 * s =? bits | _ => false end.
@@ -168,31 +297,39 @@ Definition bo_ok (bo : border) : bool := match bo with NullBO => false | _ => tr
 Definition no_params (d : sdef) : bool :=
   forallb (fun f => match f.(fbody_of) with Param _ => false | _ => true end) d.(fields).
 
+(* a structure-typed field may have a parameterised target: [FStruct tid args adapt], any args *)
 Definition wf_ftype (m : module) (u : Z) (size : vx) (ty : ftype) : bool :=
   match ty with
   | FScalar _ kbits bo => bo_ok bo && (if u =? 8 then is_const_size size kbits else true)
   | FStruct tid _ adapt =>
       match adapt with Some (nb, bo) => bo_ok bo && is_const_size size nb | None => true end
-      && match nth_error m tid with Some d => no_params d | None => true end
   | FArray _ _ => false
   end.
 
-Definition wf_field (m : module) (u : Z) (f : field) : bool :=
+Definition wf_field (m : module) (d : sdef) (f : field) : bool :=
+  let fs := d.(fields) in
   match f.(fbody_of) with
-  | Phys _ size ty _ => wf_ftype m u size ty
-  | Alias _ aty => match aty with FScalar _ _ _ => true | _ => false end
-  | Virt _ _ | Param _ => true
+  | Phys start size ty rq =>
+      wf_ftype m d.(unit_bits) size ty &&
+      (vx_ok m fs f.(fcond) && vx_ok m fs start && vx_ok m fs size && ovx_ok m fs rq
+       && forallb (vx_ok m fs) (args_of ty))
+  | Virt rd rq => vx_ok m fs f.(fcond) && vx_ok m fs rd && ovx_ok m fs rq
+  | Alias p aty =>
+      match aty with FScalar _ _ _ => true | _ => false end
+      && (vx_ok m fs f.(fcond) && path_plain m fs p)
+  | Param _ => (0 <? d.(nparams))%nat
   end.
 
-Definition wf_sdef (m : module) (d : sdef) : bool := forallb (wf_field m d.(unit_bits)) d.(fields).
+Definition wf_sdef (m : module) (d : sdef) : bool :=
+  forallb (wf_field m d) d.(fields) && ovx_ok m d.(fields) d.(srequires).
 Definition wf_stable (m : module) : bool := forallb (wf_sdef m) m.
 
 (* ---------- the statement ---------- *)
 Definition root (bytes : list Z) : storage := SB (Some (0, Z.of_nat (length bytes))).
 
 Definition prefix_stable_at (m : module) (d : sdef) (ps : list (maybe value)) (fuel : nat) (bytes extra : list Z) : Prop :=
-  fle (eval_struct m bytes fuel d ps true (root bytes))
-      (eval_struct m (bytes ++ extra) fuel d ps true (root (bytes ++ extra))).
+  flet m false (Some d) (eval_struct m bytes fuel d ps true (root bytes))
+       (eval_struct m (bytes ++ extra) fuel d ps true (root (bytes ++ extra))).
 
 (* ---------- basic facts about the order ---------- *)
 Definition fle_body (r r' : fres) : Prop :=
@@ -232,6 +369,150 @@ Proof. rewrite fle_eq. intros (_ & H & _). exact H. Qed.
 Lemma fle_ssize r r' z : fle r r' -> fr_ssize r = Some z -> fr_ssize r' = Some z.
 Proof. rewrite fle_eq. intros (_ & _ & _ & _ & H & _). apply H. Qed.
 
+(* ---------- basic facts about the typed order ---------- *)
+Definition flet_body (m : module) (w : bool) (od : option sdef) (r r' : fres) : Prop :=
+  mle (fr_has r) (fr_has r') /\
+  (fr_ok r = true -> fr_ok r' = true /\ fr_val r' = fr_val r) /\
+  (fr_sok r = true -> fr_sok r' = true) /\
+  (fr_scomplete r = true -> fr_scomplete r' = true) /\
+  mle (fr_ssize r) (fr_ssize r') /\
+  env_relt m w (odfields od) (fr_sub r) (fr_sub r') /\
+  list_le fle (fr_elems r) (fr_elems r').
+
+Lemma flet_eq m w od r r' : flet m w od r r' = flet_body m w od r r'.
+Proof. destruct r; reflexivity. Qed.
+
+Lemma tlist_nil m R w : forall l l', tlist_le m R w [] l l' <-> olist_le fle l l'.
+Proof.
+  induction l as [|x t IH]; intros l'; [cbn; tauto|].
+  destruct l' as [|x' t']; [cbn; tauto|]. cbn [tlist_le olist_le tl hd_error krel].
+  rewrite IH. tauto.
+Qed.
+
+Lemma flet_none m w r r' : flet m w None r r' <-> fle r r'.
+Proof.
+  rewrite flet_eq, fle_eq. unfold flet_body, fle_body, env_relt. cbn [odfields].
+  rewrite tlist_nil. tauto.
+Qed.
+
+Lemma nth_error_nil {A} i : nth_error (@nil A) i = None.
+Proof. destruct i; reflexivity. Qed.
+
+Lemma tlist_le_nth m R w : forall l fs l' i a,
+  tlist_le m R w fs l l' -> nth_error l i = Some (Some a) ->
+  exists a', nth_error l' i = Some (Some a') /\ krel m R w (nth_error fs i) a a'.
+Proof.
+  induction l as [|x t IH]; intros fs l' i a H Hn; [destruct i; discriminate|].
+  destruct l' as [|x' t']; [contradiction|]. destruct H as [Hx Ht].
+  destruct i as [|i]; cbn [nth_error] in Hn |- *.
+  - inversion Hn; subst x. destruct x' as [a'|]; [|contradiction]. exists a'. split; [reflexivity|].
+    destruct fs; exact Hx.
+  - destruct (IH _ _ _ _ Ht Hn) as (a' & E & K). exists a'. split; [exact E|].
+    destruct fs as [|f0 fs0]; cbn [tl nth_error] in K |- *; rewrite ?nth_error_nil in K; exact K.
+Qed.
+
+Lemma tlist_le_set_nth m R w a a' : forall i fs l l',
+  tlist_le m R w fs l l' -> krel m R w (nth_error fs i) a a' ->
+  tlist_le m R w fs (set_nth l i (Some a)) (set_nth l' i (Some a')).
+Proof.
+  unfold set_nth.
+  induction i as [|i IH]; intros fs l l' H Ha.
+  - destruct l as [|x t]; [exact I|]. destruct l' as [|x' t']; [contradiction|].
+    destruct H as [Hx Ht]. cbn [firstn skipn app tlist_le]. split; [|exact Ht]. destruct fs; exact Ha.
+  - destruct l as [|x t]; [exact I|]. destruct l' as [|x' t']; [contradiction|].
+    destruct H as [Hx Ht]. cbn [firstn skipn app tlist_le]. split; [exact Hx|]. apply IH; [exact Ht|].
+    destruct fs as [|f0 fs0]; cbn [tl nth_error] in Ha |- *; rewrite ?nth_error_nil; exact Ha.
+Qed.
+
+Lemma tlist_le_none {B} m R w fs (l : list B) :
+  tlist_le m R w fs (map (fun _ => None) l) (map (fun _ => None) l).
+Proof. revert fs. induction l; intros fs; cbn; auto. Qed.
+
+Lemma flet_has m w od r r' b : flet m w od r r' -> fr_has r = Some b -> fr_has r' = Some b.
+Proof. rewrite flet_eq. intros (H & _). apply H. Qed.
+Lemma flet_ok m w od r r' : flet m w od r r' -> fr_ok r = true -> fr_ok r' = true /\ fr_val r' = fr_val r.
+Proof. rewrite flet_eq. intros (_ & H & _). exact H. Qed.
+Lemma flet_ssize m w od r r' z : flet m w od r r' -> fr_ssize r = Some z -> fr_ssize r' = Some z.
+Proof. rewrite flet_eq. intros (_ & _ & _ & _ & H & _). apply H. Qed.
+Lemma flet_sub_nth m w od r r' i f :
+  flet m w od r r' -> nth_error (fr_sub r) i = Some (Some f) ->
+  exists f', nth_error (fr_sub r') i = Some (Some f') /\
+             krel m (flet m true) w (nth_error (odfields od) i) f f'.
+Proof.
+  rewrite flet_eq. intros (_ & _ & _ & _ & _ & H & _). apply tlist_le_nth. exact H.
+Qed.
+
+(* everything but the has flag *)
+Lemma fle_fle0 r r' : fle r r' -> fle0 r r'.
+Proof.
+  unfold fle0. destruct r, r'. rewrite !fle_eq. unfold fle_body; cbn.
+  intros (_ & H). split; [apply mle_none|exact H].
+Qed.
+Lemma fle0_with_has r r' h h' : fle0 r r' -> mle h h' -> fle (with_has h r) (with_has h' r').
+Proof.
+  unfold fle0. destruct r, r'. rewrite !fle_eq. unfold fle_body; cbn. tauto.
+Qed.
+Lemma fle0_has r r' : fle0 r r' -> mle (fr_has r) (fr_has r') -> fle r r'.
+Proof.
+  unfold fle0. destruct r, r'. rewrite !fle_eq. unfold fle_body; cbn. tauto.
+Qed.
+Lemma fle0_ok r r' : fle0 r r' -> fr_ok r = true -> fr_ok r' = true /\ fr_val r' = fr_val r.
+Proof. unfold fle0. destruct r, r'. rewrite !fle_eq. unfold fle_body; cbn. tauto. Qed.
+Lemma fle0_sub r r' : fle0 r r' -> olist_le fle (fr_sub r) (fr_sub r').
+Proof. unfold fle0. destruct r, r'. rewrite !fle_eq. unfold fle_body; cbn. tauto. Qed.
+
+Lemma ple_fle0 w r r' : ple w r r' -> fle0 r r'.
+Proof. destruct w; cbn; [tauto|apply fle_fle0]. Qed.
+
+Definition wle (r r' : fres) : Prop := fr_ok r = true -> fr_ok r' = true /\ fr_val r' = fr_val r.
+
+Lemma krel_wle m w of r r' : krel m (flet m true) w of r r' -> wle r r'.
+Proof.
+  unfold krel. destruct of as [f|]; [destruct (fbody_of f)|]; intros K.
+  - exact (flet_ok _ _ _ _ _ K).
+  - exact (fle_ok _ _ K).
+  - exact (fle_ok _ _ K).
+  - exact (fle0_ok _ _ (ple_fle0 _ _ _ K)).
+  - exact (fle_ok _ _ K).
+Qed.
+
+(* the has flag is strict except at a parameter slot *)
+Lemma krel_has m w of r r' :
+  match of with Some f => is_param f | None => false end = false ->
+  krel m (flet m true) w of r r' -> mle (fr_has r) (fr_has r').
+Proof.
+  unfold krel, is_param. destruct of as [f|]; [destruct (fbody_of f)|]; intros Hp K b Hb; try discriminate.
+  - exact (flet_has _ _ _ _ _ _ K Hb).
+  - exact (fle_has _ _ _ K Hb).
+  - exact (fle_has _ _ _ K Hb).
+  - exact (fle_has _ _ _ K Hb).
+Qed.
+
+Lemma krel_has_true m w of r r' :
+  krel m (flet m true) w of r r' -> fr_has r = Some true -> fr_has r' = Some true.
+Proof.
+  unfold krel. destruct of as [f|]; [destruct (fbody_of f)|]; intros K Hb.
+  - exact (flet_has _ _ _ _ _ _ K Hb).
+  - exact (fle_has _ _ _ K Hb).
+  - exact (fle_has _ _ _ K Hb).
+  - unfold ple in K. destruct w; [apply K; exact Hb|exact (fle_has _ _ _ K Hb)].
+  - exact (fle_has _ _ _ K Hb).
+Qed.
+
+Lemma krel_sub m w of r r' : krel m (flet m true) w of r r' ->
+  env_relt m true (match of with
+                   | Some f => match fbody_of f with Phys _ _ ty _ => odfields (sub_of_ty m ty) | _ => [] end
+                   | None => []
+                   end) (fr_sub r) (fr_sub r').
+Proof.
+  unfold krel, env_relt. destruct of as [f|]; [destruct (fbody_of f)|]; intros K.
+  - rewrite flet_eq in K. apply K.
+  - apply tlist_nil. rewrite fle_eq in K. apply K.
+  - apply tlist_nil. rewrite fle_eq in K. apply K.
+  - apply tlist_nil. exact (fle0_sub _ _ (ple_fle0 _ _ _ K)).
+  - apply tlist_nil. rewrite fle_eq in K. apply K.
+Qed.
+
 (* ---------- refutations of the unrestricted statement ---------- *)
 Definition size_virt (fs : list (vx * vx * vx)) : field :=
   mk_field (XK (VBool true)) (Virt (size_expr fs) None).
@@ -265,9 +546,9 @@ Proof.
   split; [|split; [vm_compute; reflexivity|split; [vm_compute; reflexivity|]]].
   - eexists; eexists. vm_compute. repeat split; reflexivity.
   - unfold prefix_stable_at. intros H.
-    destruct (fle_sub_nth _ _ 1%nat _ H ltac:(vm_compute; reflexivity)) as (f' & Hn & Hf).
+    destruct (flet_sub_nth _ _ _ _ _ 1%nat _ H ltac:(vm_compute; reflexivity)) as (f' & Hn & Hf).
     vm_compute in Hn. inversion Hn; subst f'; clear Hn.
-    specialize (fle_ssize _ _ 1 Hf eq_refl). vm_compute. discriminate.
+    vm_compute in Hf. destruct Hf as (_ & _ & _ & _ & Hs & _). specialize (Hs 1 eq_refl). discriminate.
 Qed.
 
 (* (The Null-byte-order refutation that stood here described the runtime before fix c90547c:
@@ -288,20 +569,22 @@ Definition m_param : module :=
       size_virt [(ktrue, kz 0, kz 1)]]
      [0; 1; 2]%nat 2%nat None].
 
+(* The strict order [fle] (every has flag kept) fails on a module of the class: p().has_k() *)
 Theorem prefix_stable_refuted_param_flag :
   exists m d ps fuel bytes extra,
-    In d m /\
+    wf_stable m = true /\ In d m /\
     let r := eval_struct m bytes fuel d ps true (root bytes) in
     let r' := eval_struct m (bytes ++ extra) fuel d ps true (root (bytes ++ extra)) in
     (exists f f' k k', nth_error (fr_sub r) 1 = Some (Some f) /\ nth_error (fr_sub r') 1 = Some (Some f') /\
                   nth_error (fr_sub f) 0 = Some (Some k) /\ nth_error (fr_sub f') 0 = Some (Some k') /\
                   fr_has k = Some false /\ fr_has k' = Some true) /\       (* p().has_k() *)
-    ~ prefix_stable_at m d ps fuel bytes extra.
+    ~ fle r r'.
 Proof.
   exists m_param, (nth 0 m_param (mk_sdef 8 0 [] [] 0 None)), [], 8%nat, [], [1; 7].
+  split; [vm_compute; reflexivity|].
   split; [left; reflexivity|]. split.
   - do 4 eexists. vm_compute. repeat split; reflexivity.
-  - unfold prefix_stable_at. intros H.
+  - intros H.
     destruct (fle_sub_nth _ _ 1%nat _ H ltac:(vm_compute; reflexivity)) as (f' & Hn & Hf).
     vm_compute in Hn. inversion Hn; subst f'; clear Hn.
     destruct (fle_sub_nth _ _ 0%nat _ Hf ltac:(vm_compute; reflexivity)) as (k' & Hn & Hk).
@@ -380,6 +663,122 @@ Lemma fle_bot r r' h h' : is_bot r -> mle h h' -> fle (with_has h r) (with_has h
 Proof.
   intros (H1 & H2 & H3 & H4 & H5 & H6) Hh. rewrite fle_eq. destruct r, r'. cbn in *. subst.
   unfold fle_body; cbn. repeat split; try discriminate; try exact Hh. 
+Qed.
+
+(* ---------- lookups and expressions under the typed relation ---------- *)
+Lemma resolve_nil m p : resolve m [] p = None.
+Proof. destruct p as [|i [|j rest]]; cbn [resolve]; rewrite ?nth_error_nil; reflexivity. Qed.
+
+Lemma lookup_resolve m : forall p w fs e e' r,
+  env_relt m w fs e e' -> lookup e p = Some r ->
+  exists r' w', lookup e' p = Some r' /\ krel m (flet m true) w' (resolve m fs p) r r'.
+Proof.
+  induction p as [|i rest IH]; intros w fs e e' r He H; [discriminate|].
+  destruct rest as [|j rest'].
+  - cbn in H |- *. destruct (nth_error e i) as [[r0|]|] eqn:E; try discriminate.
+    inversion H; subst r0.
+    destruct (tlist_le_nth _ _ _ _ _ _ _ _ He E) as (r' & E' & K). rewrite E'.
+    exists r', w. split; [reflexivity|exact K].
+  - cbn [lookup] in H |- *. destruct (nth_error e i) as [[r0|]|] eqn:E; try discriminate.
+    destruct (tlist_le_nth _ _ _ _ _ _ _ _ He E) as (r0' & E' & K). rewrite E'.
+    apply krel_sub in K. revert K. cbn [resolve].
+    destruct (nth_error fs i) as [f|]; [destruct (fbody_of f)|]; intros K; cbn beta iota in K;
+      destruct (IH _ _ _ _ _ K H) as (r' & w' & L & K'); exists r', w'; (split; [exact L|]);
+      rewrite ?resolve_nil in K'; exact K'.
+Qed.
+
+Lemma lookup_wle m w fs e e' p r :
+  env_relt m w fs e e' -> lookup e p = Some r -> exists r', lookup e' p = Some r' /\ wle r r'.
+Proof.
+  intros He H. destruct (lookup_resolve m p w fs e e' r He H) as (r' & w' & L & K).
+  exists r'. split; [exact L|]. eapply krel_wle; exact K.
+Qed.
+
+Lemma lookup_has m w fs e e' p r :
+  env_relt m w fs e e' -> has_weak m fs p = false -> lookup e p = Some r ->
+  exists r', lookup e' p = Some r' /\ mle (fr_has r) (fr_has r').
+Proof.
+  intros He Hw H. destruct (lookup_resolve m p w fs e e' r He H) as (r' & w' & L & K).
+  exists r'. split; [exact L|]. eapply krel_has; [exact Hw|exact K].
+Qed.
+
+Lemma lookup_fle0 m w fs e e' p r :
+  env_relt m w fs e e' -> path_plain m fs p = true -> lookup e p = Some r ->
+  exists r', lookup e' p = Some r' /\ fle0 r r'.
+Proof.
+  intros He Hp H. destruct (lookup_resolve m p w fs e e' r He H) as (r' & w' & L & K).
+  exists r'. split; [exact L|]. unfold path_plain in Hp. unfold krel in K. revert Hp K.
+  destruct (resolve m fs p) as [f|]; [destruct (fbody_of f) as [a b ty rq| | |]|]; intros Hp K.
+  - revert Hp K. destruct (sub_of_ty m ty); intros Hp K; [discriminate|].
+    apply fle_fle0. apply (flet_none m true). exact K.
+  - apply fle_fle0; exact K.
+  - apply fle_fle0; exact K.
+  - eapply ple_fle0; exact K.
+  - apply fle_fle0; exact K.
+Qed.
+
+Lemma meval_relt m w fs e e' s x :
+  env_relt m w fs e e' -> vx_ok m fs x = true -> mle (meval e s x) (meval e' s x).
+Proof.
+  intros He. induction x using vx_ind2; cbn [meval vx_ok]; intros Hx.
+  - apply mle_refl.
+  - intros v H. destruct (lookup e p) as [r|] eqn:E; [|discriminate].
+    destruct (lookup_wle _ _ _ _ _ _ _ He E) as (r' & E' & Hok). rewrite E'.
+    destruct (fr_ok r) eqn:Eo; [|discriminate]. destruct (Hok Eo) as [-> ->]. exact H.
+  - intros v H. destruct (lookup e p) as [r|] eqn:E; [|discriminate].
+    apply negb_true_iff in Hx.
+    destruct (lookup_has _ _ _ _ _ _ _ He Hx E) as (r' & E' & Hh). rewrite E'.
+    destruct (fr_has r) as [b|] eqn:Eh; [|discriminate]. rewrite (Hh _ eq_refl). exact H.
+  - apply mle_refl.
+  - apply andb_prop in Hx. destruct Hx as [H1 H2]. apply m_int2_mono; auto.
+  - apply andb_prop in Hx. destruct Hx as [H1 H2]. apply m_int2_mono; auto.
+  - apply andb_prop in Hx. destruct Hx as [H1 H2]. apply m_int2_mono; auto.
+  - apply andb_prop in Hx. destruct Hx as [H1 H2]. specialize (IHx1 H1). specialize (IHx2 H2).
+    intros v H. destruct (meval e s x1) as [[p| |]|] eqn:E1; try discriminate.
+    destruct (meval e s x2) as [[q| |]|] eqn:E2; try discriminate.
+    rewrite (mle_some _ _ IHx1), (mle_some _ _ IHx2). exact H.
+  - apply andb_prop in Hx. destruct Hx as [H1 H2]. specialize (IHx1 H1). specialize (IHx2 H2).
+    intros v H. destruct (meval e s x1) as [p|] eqn:E1; try discriminate.
+    destruct (meval e s x2) as [q|] eqn:E2; try discriminate.
+    rewrite (mle_some _ _ IHx1), (mle_some _ _ IHx2). exact H.
+  - apply andb_prop in Hx. destruct Hx as [H1 H2]. apply m_and_mono; auto.
+  - apply andb_prop in Hx. destruct Hx as [H1 H2]. apply m_or_mono; auto.
+  - apply andb_prop in Hx. destruct Hx as [Hx H3]. apply andb_prop in Hx. destruct Hx as [H1 H2].
+    specialize (IHx1 H1). specialize (IHx2 H2). specialize (IHx3 H3).
+    intros v H. destruct (meval e s x1) as [[|[|]|]|] eqn:E1; try discriminate;
+      rewrite (mle_some _ _ IHx1); [apply IHx2|apply IHx3]; exact H.
+  - intros v Hv.
+    destruct (m_all_ints (map (meval e s) args)) as [zs|] eqn:E; [|discriminate].
+    assert (HF : Forall2 mle (map (meval e s) args) (map (meval e' s) args)).
+    { clear E Hv. induction H as [|y t Hy Ht IH]; cbn [map]; constructor.
+      - apply Hy. cbn [forallb] in Hx. apply andb_prop in Hx. tauto.
+      - apply IH. cbn [forallb] in Hx. apply andb_prop in Hx. tauto. }
+    rewrite (m_all_ints_mono _ _ _ HF E). exact Hv.
+Qed.
+
+Lemma meval_relt_some m w fs e e' s x v :
+  env_relt m w fs e e' -> vx_ok m fs x = true -> meval e s x = Some v -> meval e' s x = Some v.
+Proof. intros He Hx. apply (meval_relt m w fs e e' s x He Hx). Qed.
+
+Lemma m_bool_relt m w fs e e' x : env_relt m w fs e e' -> vx_ok m fs x = true ->
+  mle (m_bool (meval e None x)) (m_bool (meval e' None x)).
+Proof.
+  intros He Hx b H. destruct (meval e None x) as [[| |]|] eqn:E; try discriminate.
+  rewrite (meval_relt_some _ _ _ _ _ _ _ _ He Hx E). exact H.
+Qed.
+
+Lemma requires_ok_relt m w fs rq e e' v : env_relt m w fs e e' -> ovx_ok m fs rq = true ->
+  requires_ok rq e v = true -> requires_ok rq e' v = true.
+Proof.
+  intros He Hx. destruct rq as [x|]; cbn; [|auto].
+  destruct (meval e (Some v) x) as [[| b |]|] eqn:E; cbn; try discriminate.
+  rewrite (meval_relt_some _ _ _ _ _ _ _ _ He Hx E). auto.
+Qed.
+
+Lemma flet_with_has m w od r r' h h' :
+  flet m w od r r' -> mle h h' -> flet m w od (with_has h r) (with_has h' r').
+Proof.
+  rewrite !flet_eq. destruct r, r'. unfold flet_body; cbn. tauto.
 Qed.
 
 (* ---------- storages of the short and the long buffer ---------- *)
@@ -534,35 +933,100 @@ Definition pvals_rel (pinit : bool) (ps : list (maybe value)) (pinit' : bool) (p
   pinit = true ->
   pinit' = true /\ forall i v, nth_error ps i = Some (Some v) -> nth_error ps' i = Some (Some v).
 
-Lemma locate_rel st e has ak start size sl e' :
-  env_rel e e' -> locate st e has ak start size = Some sl ->
+Lemma locate_relt m w fs st e has ak start size sl e' :
+  env_relt m w fs e e' -> vx_ok m fs start = true -> vx_ok m fs size = true ->
+  locate st e has ak start size = Some sl ->
   exists off sz, 0 <= off /\ 0 <= sz /\ sl = get_offset st off sz /\
     meval e None size = Some (VInt sz) /\ ak = true /\
     forall st' has' ak', mle has has' -> ak' = true ->
       locate st' e' has' ak' start size = Some (get_offset st' off sz).
 Proof.
-  intros He H. unfold locate in H.
+  intros He Hst Hsz H. unfold locate in H.
   destruct ak; [|discriminate]. destruct has as [[|]|]; try discriminate. cbn [andb value_or_false] in H.
   destruct (meval e None size) as [[sz| |]|] eqn:Es; try discriminate.
   destruct (meval e None start) as [[off| |]|] eqn:Eo; try discriminate. cbn [m_z] in H.
   destruct ((0 <=? sz) && (0 <=? off)) eqn:Eb; [|discriminate]. inversion H; subst sl.
   exists off, sz. repeat split; try lia.
   intros st' has' ak' Hh ->. unfold locate. rewrite (Hh true eq_refl). cbn [andb value_or_false].
-  rewrite (meval_rel _ _ _ _ _ He Es), (meval_rel _ _ _ _ _ He Eo). cbn [m_z]. rewrite Eb. reflexivity.
+  rewrite (meval_relt_some _ _ _ _ _ _ _ _ He Hsz Es), (meval_relt_some _ _ _ _ _ _ _ _ He Hst Eo).
+  cbn [m_z]. rewrite Eb. reflexivity.
 Qed.
 
-Lemma argvals_known e e' args :
-  env_rel e e' -> forallb known (map (meval e None) args) = true ->
+(* the arguments of a nested view are evaluated in the parent's environment: known ones stay *)
+Lemma argvals_known_t m w fs e e' args :
+  env_relt m w fs e e' -> forallb (vx_ok m fs) args = true ->
+  forallb known (map (meval e None) args) = true ->
   forallb known (map (meval e' None) args) = true /\
   forall i v, nth_error (map (meval e None) args) i = Some (Some v) ->
               nth_error (map (meval e' None) args) i = Some (Some v).
 Proof.
-  intros He. induction args as [|a t IH]; cbn [map forallb]; intros H.
+  intros He. induction args as [|a t IH]; cbn [map forallb]; intros Hx H.
   - split; [reflexivity|]. intros [|i] v Hn; discriminate.
-  - apply andb_prop in H. destruct H as [Ha Ht]. destruct (IH Ht) as [IH1 IH2].
+  - apply andb_prop in H. destruct H as [Ha Ht]. apply andb_prop in Hx. destruct Hx as [Hxa Hxt].
+    destruct (IH Hxt Ht) as [IH1 IH2].
     destruct (meval e None a) as [va|] eqn:Ea; [|discriminate].
-    rewrite (meval_rel _ _ _ _ _ He Ea). split; [exact IH1|].
+    rewrite (meval_relt_some _ _ _ _ _ _ _ _ He Hxa Ea). split; [exact IH1|].
     intros [|i] v Hn; cbn in Hn |- *; [exact Hn|apply IH2; exact Hn].
+Qed.
+
+Lemma set_nth_inv {A} (x : A) : forall i l j y,
+  nth_error (set_nth l i x) j = Some y -> (j = i /\ y = x) \/ nth_error l j = Some y.
+Proof.
+  unfold set_nth. induction i as [|i IH]; intros [|a t] j y H; cbn in H.
+  - right. exact H.
+  - destruct j; cbn in H |- *; [inversion H; left; auto|right; exact H].
+  - right. exact H.
+  - destruct j as [|j]; cbn in H |- *; [right; exact H|].
+    apply IH in H. destruct H as [[-> ->]|H]; [left; auto|right; exact H].
+Qed.
+
+Lemma all_none_absurd {A B} (l : list B) j (r : A) :
+  nth_error (map (fun _ => @None A) l) j = Some (Some r) -> False.
+Proof. revert j. induction l as [|a t IH]; intros [|j] H; cbn in H; try discriminate. eapply IH; exact H. Qed.
+
+(* the has flag of a parameter slot is parameters_initialized_ *)
+Definition pinv (d : sdef) (pinit : bool) (e : env) : Prop :=
+  forall i r fd, nth_error e i = Some (Some r) -> nth_error (fields d) i = Some fd ->
+                 is_param fd = true -> fr_has r = Some pinit.
+
+Lemma step_pinv m bs f d ps pinit st e i : pinv d pinit e -> pinv d pinit (vstep m bs f d ps pinit st e i).
+Proof.
+  intros Hinv. unfold vstep. destruct (nth_error (fields d) i) as [fld|] eqn:Ef; [|exact Hinv].
+  intros j r fd Hj Hfd Hp. apply set_nth_inv in Hj. destruct Hj as [[-> Hr]|Hj]; [|eapply Hinv; eassumption].
+  rewrite Ef in Hfd. inversion Hfd; subst fd. unfold is_param in Hp.
+  destruct (fbody_of fld); try discriminate. inversion Hr; subst r. reflexivity.
+Qed.
+
+Lemma fold_pinv m bs f d ps pinit st : forall ord e,
+  pinv d pinit e -> pinv d pinit (fold_left (vstep m bs f d ps pinit st) ord e).
+Proof.
+  induction ord as [|i t IHo]; intros e He; [exact He|]. cbn [fold_left]. apply IHo. apply step_pinv. exact He.
+Qed.
+
+Lemma krel_false_has m of r r' : krel m (flet m true) false of r r' -> mle (fr_has r) (fr_has r').
+Proof.
+  unfold krel. destruct of as [f|]; [destruct (fbody_of f)|]; intros K b Hb;
+    [exact (flet_has _ _ _ _ _ _ K Hb)|exact (fle_has _ _ _ K Hb)..].
+Qed.
+
+Lemma param_fle0 ps ps' pinit pinit' pi : pvals_rel pinit ps pinit' ps' ->
+  fle0 (FR (Some pinit)
+           (known (if pinit then match nth_error ps pi with Some v => v | None => None end else None))
+           (if pinit then match nth_error ps pi with Some v => v | None => None end else None)
+           (SB None) [] true true None [])
+       (FR (Some pinit')
+           (known (if pinit' then match nth_error ps' pi with Some v => v | None => None end else None))
+           (if pinit' then match nth_error ps' pi with Some v => v | None => None end else None)
+           (SB None) [] true true None []).
+Proof.
+  intros Hp. unfold fle0. cbn [with_has]. rewrite fle_eq. unfold fle_body.
+  cbn [fr_has fr_ok fr_val fr_sok fr_scomplete fr_ssize fr_sub fr_elems olist_le list_le].
+  split; [apply mle_none|].
+  split.
+  { intros H. destruct pinit; [|discriminate]. destruct (Hp eq_refl) as [-> Hps].
+    destruct (nth_error ps pi) as [[v|]|] eqn:En; try discriminate.
+    rewrite (Hps _ _ En). split; reflexivity. }
+  split; [auto|]. split; [auto|]. split; [apply mle_none|]. split; exact I.
 Qed.
 
 Section Main.
@@ -571,28 +1035,40 @@ Section Main.
   Variables bytes extra : list Z.
   Let n := Z.of_nat (length bytes).
 
+  (* w = false: both views initialised alike (the top level); w = true: a nested view, which may be
+     default-constructed on the prefix and located on the extension *)
   Definition struct_stable (f : nat) : Prop :=
-    forall d ps ps' pinit pinit' st st',
+    forall d ps ps' pinit pinit' st st' w,
       wf_sdef m d = true -> st_rel n st st' -> pvals_rel pinit ps pinit' ps' ->
-      (pinit = pinit' \/ no_params d = true) ->
-      fle (eval_struct m bytes f d ps pinit st) (eval_struct m (bytes ++ extra) f d ps' pinit' st').
+      (w = false -> pinit = pinit') ->
+      flet m w (Some d) (eval_struct m bytes f d ps pinit st) (eval_struct m (bytes ++ extra) f d ps' pinit' st').
 
   Definition type_stable (f : nat) : Prop :=
-    forall u size ty ps ps' pinit pinit' s s' rq e e',
+    forall u size ty ps ps' pinit pinit' s s' rq e e' w fs,
       wf_ftype m u size ty = true -> st_rel n s s' ->
       (forall kb, exact_bits u ty = Some kb -> exact_for kb s s') ->
-      env_rel e e' -> pvals_rel pinit ps pinit' ps' ->
-      fle (eval_type m bytes f u ty ps pinit s rq e) (eval_type m (bytes ++ extra) f u ty ps' pinit' s' rq e').
+      env_relt m w fs e e' -> ovx_ok m fs rq = true -> pvals_rel pinit ps pinit' ps' ->
+      flet m true (sub_of_ty m ty) (eval_type m bytes f u ty ps pinit s rq e)
+           (eval_type m (bytes ++ extra) f u ty ps' pinit' s' rq e').
 
   Lemma fle_exhausted s s' : fle (FR None false None s [] false false None []) (FR None false None s' [] false false None []).
   Proof. rewrite fle_eq. unfold fle_body; cbn. repeat split; try discriminate; apply mle_none. Qed.
 
-  Lemma scalar_stable f u k kbits bo ps ps' pinit pinit' s s' rq e e' :
-    bo <> NullBO -> st_rel n s s' -> (u = 8 -> exact_for kbits s s') -> env_rel e e' ->
+  Lemma flet_exhausted w od s s' :
+    flet m w od (FR None false None s [] false false None []) (FR None false None s' [] false false None []).
+  Proof.
+    rewrite flet_eq. unfold flet_body, env_relt.
+    cbn [fr_has fr_ok fr_val fr_sok fr_scomplete fr_ssize fr_sub fr_elems tlist_le list_le].
+    repeat split; try discriminate; apply mle_none.
+  Qed.
+
+  Lemma scalar_stable f u k kbits bo ps ps' pinit pinit' s s' rq e e' w fs :
+    bo <> NullBO -> st_rel n s s' -> (u = 8 -> exact_for kbits s s') -> env_relt m w fs e e' ->
+    ovx_ok m fs rq = true ->
     fle (eval_type m bytes (S f) u (FScalar k kbits bo) ps pinit s rq e)
         (eval_type m (bytes ++ extra) (S f) u (FScalar k kbits bo) ps' pinit' s' rq e').
   Proof.
-    intros Hbo Hr Hex He. cbn [eval_type].
+    intros Hbo Hr Hex He Hrq. cbn [eval_type].
     set (s2 := match s with SB b => if u =? 8 then mk_bitblock b bo kbits else s | _ => s end).
     set (s2' := match s' with SB b => if u =? 8 then mk_bitblock b bo kbits else s' | _ => s' end).
     assert (Hr2 : st_rel n s2 s2').
@@ -626,7 +1102,7 @@ Section Main.
       Some (decode_scalar k kbits (raw_read (bytes ++ extra) s2')) = Some (decode_scalar k kbits (raw_read bytes s2))).
     { intros H. apply andb_prop in H. destruct H as [H H3]. apply andb_prop in H. destruct H as [H1 H2].
       destruct (Hc H1) as [H1' Hraw]. rewrite Hraw, H1', H2. cbn [andb].
-      split; [|reflexivity]. eapply requires_ok_rel; eassumption. }
+      split; [|reflexivity]. eapply requires_ok_relt; eassumption. }
     split; [apply mle_none|]. split; [exact Hmain|].
     split; [intros H; apply Hmain in H; tauto|].
     split; [intros H; apply Hc in H; tauto|].
@@ -639,19 +1115,26 @@ Section Main.
     rewrite forallb_forall in Hwf. apply Hwf. exact H.
   Qed.
 
+  Lemma wf_field_of d fd : wf_sdef m d = true -> In fd (fields d) -> wf_field m d fd = true.
+  Proof.
+    intros Hd Hin. unfold wf_sdef in Hd. apply andb_prop in Hd. destruct Hd as [Hd _].
+    rewrite forallb_forall in Hd. apply Hd. exact Hin.
+  Qed.
+
   Lemma type_stable_0 : type_stable 0.
-  Proof. intros u size ty ps ps' pinit pinit' s s' rq e e' _ _ _ _ _. apply fle_exhausted. Qed.
+  Proof. intros u size ty ps ps' pinit pinit' s s' rq e e' w fs _ _ _ _ _ _. apply flet_exhausted. Qed.
 
   Lemma type_stable_S f : struct_stable f -> type_stable (S f).
   Proof.
-    intros IH u size ty ps ps' pinit pinit' s s' rq e e' Hty Hr Hex He Hp.
+    intros IH u size ty ps ps' pinit pinit' s s' rq e e' w fs Hty Hr Hex He Hrq Hp.
     destruct ty as [k kbits bo | tid args adapt | el esz]; [| |discriminate].
     - cbn [wf_ftype] in Hty. apply andb_prop in Hty. destruct Hty as [Hbo _].
-      apply scalar_stable; [apply bo_ok_ne; exact Hbo|exact Hr| |exact He].
+      cbn [sub_of_ty]. apply flet_none.
+      apply scalar_stable with (w := w) (fs := fs); [apply bo_ok_ne; exact Hbo|exact Hr| |exact He|exact Hrq].
       intros ->. apply Hex. reflexivity.
-    - cbn [eval_type]. cbn [wf_ftype] in Hty. apply andb_prop in Hty. destruct Hty as [Had Hnp].
-      destruct (nth_error m tid) as [d|] eqn:Ed; [|apply fle_exhausted].
-      apply IH; [eapply wf_sdef_of; exact Ed| |exact Hp|right; exact Hnp].
+    - cbn [eval_type sub_of_ty]. cbn [wf_ftype] in Hty. rename Hty into Had.
+      destruct (nth_error m tid) as [d|] eqn:Ed; [|apply flet_exhausted].
+      apply IH; [eapply wf_sdef_of; exact Ed| |exact Hp|discriminate].
       destruct adapt as [[nb bo]|].
       + apply andb_prop in Had. destruct Had as [Hbo _]. apply bo_ok_ne in Hbo.
         specialize (Hex nb eq_refl).
@@ -669,32 +1152,50 @@ Section Main.
   Qed.
 
   (* ----- the final assembly of a structure view ----- *)
-  Lemma isize_rel d e e' : env_rel e e' -> mle (isize_of d e) (isize_of d e').
+  Lemma isize_relt d w fs e e' : env_relt m w fs e e' -> mle (isize_of d e) (isize_of d e').
   Proof.
     intros He z H. unfold isize_of in *.
     destruct (nth_error e (size_field d)) as [[r|]|] eqn:E; try discriminate.
-    destruct (olist_le_nth _ _ _ _ _ He E) as (r' & E' & Hr). rewrite E'.
+    destruct (tlist_le_nth _ _ _ _ _ _ _ _ He E) as (r' & E' & K). rewrite E'. apply krel_wle in K.
     destruct (fr_ok r) eqn:Eo; [|discriminate].
-    destruct (fle_ok _ _ Hr Eo) as [-> ->]. exact H.
+    destruct (K Eo) as [-> ->]. exact H.
   Qed.
 
-  Lemma field_test_rel e e' i : env_rel e e' -> field_test e i = true -> field_test e' i = true.
+  Lemma field_test_relt d w e e' i pinit :
+    wf_sdef m d = true -> env_relt m w (fields d) e e' -> pinv d pinit e ->
+    (if (0 <? nparams d)%nat then pinit else true) = true ->
+    field_test e i = true -> field_test e' i = true.
   Proof.
-    intros He H. unfold field_test in *.
+    intros Hd He Hpin H2 H. unfold field_test in *.
     destruct (nth_error e i) as [[r|]|] eqn:E; try discriminate.
-    destruct (olist_le_nth _ _ _ _ _ He E) as (r' & E' & Hr). rewrite E'.
+    destruct (tlist_le_nth _ _ _ _ _ _ _ _ He E) as (r' & E' & K). rewrite E'.
+    assert (Hh : mle (fr_has r) (fr_has r')).
+    { destruct (nth_error (fields d) i) as [fd|] eqn:Ef; [|exact (krel_has m w None r r' eq_refl K)].
+      destruct (is_param fd) eqn:Ep; [|exact (krel_has m w (Some fd) r r' Ep K)].
+      (* a parameter slot of an Ok view: the parameters are initialised *)
+      assert (Hpi : pinit = true).
+      { pose proof (wf_field_of d fd Hd (nth_error_In _ _ Ef)) as Hf. unfold wf_field in Hf. unfold is_param in Ep.
+        destruct (fbody_of fd); try discriminate. rewrite Hf in H2. exact H2. }
+      pose proof (Hpin i r fd E Ef Ep) as Hr. subst pinit.
+      unfold krel in K. unfold is_param in Ep. destruct (fbody_of fd); try discriminate.
+      intros b Hb. rewrite Hr in Hb. inversion Hb; subst b.
+      unfold ple in K. destruct w; [apply K; exact Hr|apply (fle_has _ _ _ K Hr)]. }
+    apply krel_wle in K.
     destruct (fr_has r) as [[|]|] eqn:Eh; try discriminate.
-    - rewrite (fle_has _ _ _ Hr Eh). apply (fle_ok _ _ Hr H).
-    - rewrite (fle_has _ _ _ Hr Eh). reflexivity.
+    - rewrite (Hh _ eq_refl). apply K. exact H.
+    - rewrite (Hh _ eq_refl). reflexivity.
   Qed.
 
-  Lemma finish_stable d pinit pinit' st st' e e' :
-    env_rel e e' -> st_rel n st st' -> (pinit = true -> pinit' = true) ->
-    fle (finish d pinit st e) (finish d pinit' st' e').
+  Lemma finish_stable d pinit pinit' st st' e e' w :
+    wf_sdef m d = true -> env_relt m w (fields d) e e' -> st_rel n st st' ->
+    (pinit = true -> pinit' = true) -> pinv d pinit e ->
+    flet m w (Some d) (finish d pinit st e) (finish d pinit' st' e').
   Proof.
-    intros He Hr Hp. rewrite fle_eq. unfold fle_body, finish.
-    cbn [fr_has fr_ok fr_val fr_sok fr_scomplete fr_ssize fr_sub fr_elems list_le].
-    pose proof (isize_rel d e e' He) as Hi.
+    intros Hd He Hr Hp Hpin. rewrite flet_eq. unfold flet_body, finish.
+    cbn [fr_has fr_ok fr_val fr_sok fr_scomplete fr_ssize fr_sub fr_elems list_le odfields].
+    pose proof (isize_relt d w (fields d) e e' He) as Hi.
+    assert (Hsr : ovx_ok m (fields d) (srequires d) = true).
+    { unfold wf_sdef in Hd. apply andb_prop in Hd. tauto. }
     assert (Hc : storage_ok st && match isize_of d e with Some z => z <=? storage_size st | None => false end = true ->
                  storage_ok st' && match isize_of d e' with Some z => z <=? storage_size st' | None => false end = true).
     { intros H. apply andb_prop in H. destruct H as [H1 H2].
@@ -711,11 +1212,12 @@ Section Main.
       { destruct (0 <? nparams d)%nat; [apply Hp; exact H2|reflexivity]. }
       rewrite H2'. cbn [andb].
       assert (H3' : forallb (field_test e') (order d) = true).
-      { rewrite forallb_forall in H3 |- *. intros i Hi'. eapply field_test_rel; [exact He|apply H3; exact Hi']. }
+      { rewrite forallb_forall in H3 |- *. intros i Hi'.
+        eapply field_test_relt; [exact Hd|exact He|exact Hpin|exact H2|apply H3; exact Hi']. }
       rewrite H3'. cbn [andb].
-      destruct (srequires d) as [x|]; [|reflexivity].
+      destruct (srequires d) as [x|]; [|reflexivity]. cbn [ovx_ok] in Hsr.
       destruct (m_bool (meval e None x)) as [b|] eqn:Eb; [|discriminate]. cbn in H4. subst b.
-      rewrite (m_bool_rel e e' x He true Eb). reflexivity. }
+      rewrite (m_bool_relt m w (fields d) e e' x He Hsr true Eb). reflexivity. }
     split; [apply mle_none|].
     split; [intros H; split; [exact (Hok _ _ Hc H)|reflexivity]|].
     split; [exact (Hok _ _ Hc)|].
@@ -733,8 +1235,7 @@ Section Main.
     { destruct ty as [k kbits bo | tid args [[nb bo]|] | el esz]; cbn in Hty, Hk; try discriminate.
       - destruct (u =? 8); [|discriminate]. inversion Hk; subst kb.
         apply andb_prop in Hty. tauto.
-      - inversion Hk; subst kb. apply andb_prop in Hty. destruct Hty as [Hty _].
-        apply andb_prop in Hty. tauto. }
+      - inversion Hk; subst kb. apply andb_prop in Hty. tauto. }
     unfold is_const_size in Hc. destruct size as [[s| |]| | | | | | | | | | | |]; try discriminate.
     cbn in Hs. inversion Hs; subst. lia.
   Qed.
@@ -745,90 +1246,95 @@ Section Main.
     destruct f; cbn; [repeat split|]. destruct (u =? 8); cbn; repeat split.
   Qed.
 
-  Lemma step_stable f d ps ps' pinit pinit' st st' e e' i :
+  Lemma step_stable f d ps ps' pinit pinit' st st' e e' i w :
     type_stable f -> wf_sdef m d = true -> st_rel n st st' -> pvals_rel pinit ps pinit' ps' ->
-    (pinit = pinit' \/ no_params d = true) -> env_rel e e' ->
-    env_rel (vstep m bytes f d ps pinit st e i) (vstep m (bytes ++ extra) f d ps' pinit' st' e' i).
+    (w = false -> pinit = pinit') -> env_relt m w (fields d) e e' ->
+    env_relt m w (fields d) (vstep m bytes f d ps pinit st e i) (vstep m (bytes ++ extra) f d ps' pinit' st' e' i).
   Proof.
-    intros IH Hd Hr Hp Hnp He. unfold vstep.
+    intros IH Hd Hr Hp Hw He. unfold vstep.
     destruct (nth_error (fields d) i) as [fld|] eqn:Ef; [|exact He].
-    assert (Hfld : wf_field m (unit_bits d) fld = true).
-    { unfold wf_sdef in Hd. rewrite forallb_forall in Hd. apply Hd. eapply nth_error_In; exact Ef. }
-    pose proof (m_bool_rel e e' (fcond fld) He) as Hh.
-    remember (m_bool (meval e None (fcond fld))) as has eqn:Ehas.
-    remember (m_bool (meval e' None (fcond fld))) as has' eqn:Ehas'.
-    clear Ehas Ehas'.
-    apply olist_le_set_nth; [exact He|].
-    unfold wf_field in Hfld.
+    pose proof (wf_field_of d fld Hd (nth_error_In _ _ Ef)) as Hfld.
+    unfold env_relt. apply tlist_le_set_nth; [exact He|]. rewrite Ef. unfold krel.
+    unfold wf_field in Hfld. cbv zeta in Hfld |- *.
     destruct (fbody_of fld) as [start size ty rq | rd rq | p aty | pi] eqn:Eb.
     - (* physical field *)
+      apply andb_prop in Hfld. destruct Hfld as [Hty Hx].
+      apply andb_prop in Hx. destruct Hx as [Hx Hargs]. apply andb_prop in Hx. destruct Hx as [Hx Hrq].
+      apply andb_prop in Hx. destruct Hx as [Hx Hsz]. apply andb_prop in Hx. destruct Hx as [Hc Hst].
+      pose proof (m_bool_relt m w (fields d) e e' (fcond fld) He Hc) as Hh.
+      remember (m_bool (meval e None (fcond fld))) as has eqn:Ehas.
+      remember (m_bool (meval e' None (fcond fld))) as has' eqn:Ehas'.
+      clear Ehas Ehas'.
       destruct (locate st e has (forallb known (map (meval e None) (args_of ty))) start size) as [sl|] eqn:EL.
-      + destruct (locate_rel _ _ _ _ _ _ _ _ He EL) as (off & sz & Ho & Hs & -> & Esz & Hak & Hloc).
-        destruct (argvals_known e e' (args_of ty) He Hak) as [Hak' Hargs].
+      + destruct (locate_relt _ _ _ _ _ _ _ _ _ _ _ He Hst Hsz EL) as (off & sz & Ho & Hs & -> & Esz & Hak & Hloc).
+        destruct (argvals_known_t m w (fields d) e e' (args_of ty) He Hargs Hak) as [Hak' Hargv].
         rewrite (Hloc st' has' _ Hh Hak').
-        apply fle_with_has; [|exact Hh].
-        apply (IH (unit_bits d) size); [exact Hfld|apply st_rel_get_offset; assumption| |exact He|].
+        apply flet_with_has; [|exact Hh].
+        apply (IH (unit_bits d) size) with (w := w) (fs := fields d);
+          [exact Hty|apply st_rel_get_offset; assumption| |exact He|exact Hrq|].
         * intros kb Hkb. eapply exact_get_offset; try eassumption.
           eapply wf_exact; eassumption.
-        * intros _. split; [reflexivity|exact Hargs].
+        * intros _. split; [reflexivity|exact Hargv].
       + assert (Hnull : storage_ok (null_of ty m) = false) by apply null_of_not_ok.
         destruct (locate st' e' has' (forallb known (map (meval e' None) (args_of ty))) start size) as [sl'|];
-          (apply fle_with_has; [|exact Hh]);
-          (apply (IH (unit_bits d) size);
-           [exact Hfld|left; exact Hnull|intros kb _; apply exact_for_not_ok; exact Hnull|exact He|intros Hx; discriminate]).
+          (apply flet_with_has; [|exact Hh]);
+          (apply (IH (unit_bits d) size) with (w := w) (fs := fields d);
+           [exact Hty|left; exact Hnull|intros kb _; apply exact_for_not_ok; exact Hnull|exact He|exact Hrq
+           |intros Hx'; discriminate]).
     - (* virtual field *)
+      apply andb_prop in Hfld. destruct Hfld as [Hx Hrq]. apply andb_prop in Hx. destruct Hx as [Hc Hrd].
+      pose proof (m_bool_relt m w (fields d) e e' (fcond fld) He Hc) as Hh.
       rewrite fle_eq. unfold fle_body.
       cbn [fr_has fr_ok fr_val fr_sok fr_scomplete fr_ssize fr_sub fr_elems olist_le list_le].
       split; [exact Hh|].
       destruct (meval e None rd) as [vv|] eqn:Ev.
-      + rewrite (meval_rel _ _ _ _ _ He Ev).
-        split; [intros H; split; [eapply requires_ok_rel; eassumption|reflexivity]|].
-        split; [intros H; eapply requires_ok_rel; eassumption|].
+      + rewrite (meval_relt_some _ _ _ _ _ _ _ _ He Hrd Ev).
+        split; [intros H; split; [eapply requires_ok_relt; eassumption|reflexivity]|].
+        split; [intros H; eapply requires_ok_relt; eassumption|].
         split; [auto|]. split; [apply mle_none|]. split; exact I.
       + split; [discriminate|]. split; [discriminate|]. split; [auto|]. split; [apply mle_none|]. split; exact I.
     - (* alias *)
-      destruct aty as [k kb bo| |]; try discriminate.
+      destruct aty as [k kb bo| |]; cbn [andb] in Hfld; try discriminate.
+      apply andb_prop in Hfld. destruct Hfld as [Hc Hpp].
+      pose proof (m_bool_relt m w (fields d) e e' (fcond fld) He Hc) as Hh.
+      remember (m_bool (meval e None (fcond fld))) as has eqn:Ehas.
+      remember (m_bool (meval e' None (fcond fld))) as has' eqn:Ehas'.
+      clear Ehas Ehas'.
       destruct (if value_or_false has then lookup e p else None) as [r|] eqn:EL.
       + destruct has as [[|]|]; try discriminate. rewrite (Hh true eq_refl). cbn [value_or_false] in EL |- *.
-        destruct (env_rel_lookup _ _ _ _ He EL) as (r' & -> & Hr').
-        apply fle_with_has; [exact Hr'|]. intros x Hx. exact Hx.
+        destruct (lookup_fle0 _ _ _ _ _ _ _ He Hpp EL) as (r' & -> & Hr').
+        apply fle0_with_has; [exact Hr'|]. intros x Hx. exact Hx.
       + destruct (if value_or_false has' then lookup e' p else None) as [r'|];
           (apply fle_bot; [apply scalar_null_bot|exact Hh]).
-    - (* parameter *)
-      assert (pinit = pinit').
-      { destruct Hnp as [Hnp|Hnp]; [exact Hnp|]. unfold no_params in Hnp. rewrite forallb_forall in Hnp.
-        specialize (Hnp fld (nth_error_In _ _ Ef)). rewrite Eb in Hnp. discriminate. }
-      subst pinit'.
-      rewrite fle_eq. unfold fle_body.
-      cbn [fr_has fr_ok fr_val fr_sok fr_scomplete fr_ssize fr_sub fr_elems olist_le list_le].
-      split; [apply mle_refl|].
-      split.
-      { intros H. destruct pinit; [|discriminate]. destruct (Hp eq_refl) as [_ Hps].
-        destruct (nth_error ps pi) as [[v|]|] eqn:En; try discriminate.
-        rewrite (Hps _ _ En). split; reflexivity. }
-      split; [auto|]. split; [auto|]. split; [apply mle_none|]. split; exact I.
+    - (* parameter slot *)
+      unfold ple. destruct w.
+      + split; [|apply param_fle0; exact Hp].
+        cbn [fr_has]. intros H. inversion H; subst pinit. destruct (Hp eq_refl) as [-> _]. reflexivity.
+      + apply fle0_has; [apply param_fle0; exact Hp|].
+        cbn [fr_has]. rewrite (Hw eq_refl). apply mle_refl.
   Qed.
 
-  Lemma fold_stable f d ps ps' pinit pinit' st st' :
+  Lemma fold_stable f d ps ps' pinit pinit' st st' w :
     type_stable f -> wf_sdef m d = true -> st_rel n st st' -> pvals_rel pinit ps pinit' ps' ->
-    (pinit = pinit' \/ no_params d = true) ->
-    forall ord e e', env_rel e e' ->
-      env_rel (fold_left (vstep m bytes f d ps pinit st) ord e)
+    (w = false -> pinit = pinit') ->
+    forall ord e e', env_relt m w (fields d) e e' ->
+      env_relt m w (fields d) (fold_left (vstep m bytes f d ps pinit st) ord e)
               (fold_left (vstep m (bytes ++ extra) f d ps' pinit' st') ord e').
   Proof.
-    intros IH Hd Hr Hp Hnp. induction ord as [|i t IHo]; intros e e' He; [exact He|].
+    intros IH Hd Hr Hp Hw. induction ord as [|i t IHo]; intros e e' He; [exact He|].
     cbn [fold_left]. apply IHo. apply step_stable; assumption.
   Qed.
 
   Lemma struct_stable_S f : type_stable f -> struct_stable (S f).
   Proof.
-    intros IH d ps ps' pinit pinit' st st' Hd Hr Hp Hnp.
-    rewrite !eval_struct_S. apply finish_stable; [|exact Hr|intros H; apply (Hp H)].
-    apply fold_stable; try assumption. apply olist_le_none.
+    intros IH d ps ps' pinit pinit' st st' w Hd Hr Hp Hw.
+    rewrite !eval_struct_S. apply finish_stable; [exact Hd| |exact Hr|intros H; apply (Hp H)|].
+    - apply fold_stable; try assumption. apply tlist_le_none.
+    - apply fold_pinv. intros i r fd Hn. exfalso. eapply all_none_absurd; exact Hn.
   Qed.
 
   Lemma struct_stable_0 : struct_stable 0.
-  Proof. intros d ps ps' pinit pinit' st st' _ _ _ _. apply fle_exhausted. Qed.
+  Proof. intros d ps ps' pinit pinit' st st' w _ _ _ _. apply flet_exhausted. Qed.
 
   Lemma both_stable f : struct_stable f /\ type_stable f.
   Proof.
@@ -850,11 +1356,12 @@ Proof.
   - right. exists (Z.of_nat (length (bytes ++ extra))). split; [reflexivity|].
     rewrite app_length. cbn. lia.
   - intros _. split; [reflexivity|auto].
-  - left. reflexivity.
+  - reflexivity.
 Qed.
 Print Assumptions prefix_stable_partial.
 
-(* readable consequences for the top-level view and its fields *)
+(* readable consequences for the top-level view and its fields (every has flag of the top-level
+   view is kept, those of its parameters included; inside a nested view the typed order applies) *)
 Corollary prefix_stable_top m d ps fuel bytes extra :
   wf_stable m = true -> In d m ->
   let r := eval_struct m bytes fuel d ps true (root bytes) in
@@ -866,17 +1373,71 @@ Corollary prefix_stable_top m d ps fuel bytes extra :
      exists f', nth_error (fr_sub r') i = Some (Some f') /\
        (forall b, fr_has f = Some b -> fr_has f' = Some b) /\              (* has_x() *)
        (fr_ok f = true -> fr_ok f' = true /\ fr_val f' = fr_val f) /\      (* x().Ok(), Read() *)
-       fle f f').                                                          (* and hereditarily *)
+       krel m (flet m true) false (nth_error (fields d) i) f f').          (* and hereditarily *)
 Proof.
   intros Hwf Hd r r'. pose proof (prefix_stable_partial m Hwf d ps fuel bytes extra Hd) as H.
   unfold prefix_stable_at in H. fold r r' in H.
-  split; [intros Ho; apply (fle_ok _ _ H Ho)|].
-  split; [rewrite fle_eq in H; apply H|].
-  split; [intros z; apply (fle_ssize _ _ z H)|].
-  intros i f Hn. destruct (fle_sub_nth _ _ _ _ H Hn) as (f' & Hn' & Hf).
-  exists f'. split; [exact Hn'|]. split; [intros b; apply (fle_has _ _ b Hf)|].
-  split; [apply (fle_ok _ _ Hf)|exact Hf].
+  split; [intros Ho; apply (flet_ok _ _ _ _ _ H Ho)|].
+  split; [rewrite flet_eq in H; apply H|].
+  split; [intros z; apply (flet_ssize _ _ _ _ _ z H)|].
+  intros i f Hn. destruct (flet_sub_nth _ _ _ _ _ _ _ H Hn) as (f' & Hn' & Hf).
+  exists f'. split; [exact Hn'|]. split; [exact (krel_false_has _ _ _ _ Hf)|].
+  split; [exact (krel_wle _ _ _ _ _ Hf)|exact Hf].
 Qed.
+
+(* ---------- the strict order, where no nested structure has parameters ---------- *)
+(* When every structure used as a field type is parameter-free (the class of the earlier version of
+   this file), the typed order is the strict hereditary order [fle]: every has flag is kept. *)
+Definition strict_targets (m : module) : bool :=
+  forallb (fun d =>
+    forallb (fun f => match fbody_of f with
+                      | Phys _ _ ty _ => match sub_of_ty m ty with Some d' => no_params d' | None => true end
+                      | _ => true
+                      end) (fields d)) m.
+
+Lemma flet_strict m : strict_targets m = true ->
+  forall r r' od w,
+    (forall d, od = Some d -> In d m /\ (w = false \/ no_params d = true)) ->
+    flet m w od r r' -> fle r r'.
+Proof.
+  intros Hst. fix IH 1. intros [h o v st sub sok sc ss els] r' od w Hod H.
+  rewrite flet_eq in H. rewrite fle_eq. unfold flet_body, fle_body, env_relt in *.
+  cbn [fr_has fr_ok fr_val fr_sok fr_scomplete fr_ssize fr_sub fr_elems] in *.
+  destruct H as (H1 & H2 & H3 & H4 & H5 & H6 & H7).
+  repeat (split; [assumption|]). split; [|exact H7].
+  assert (Hfs : forall f, In f (odfields od) -> exists d, od = Some d /\ In f (fields d)).
+  { destruct od as [d|]; cbn; [intros f Hf; exists d; auto|contradiction]. }
+  revert Hfs H6. generalize (odfields od) as fs. generalize (fr_sub r') as sub'.
+  induction sub as [|x t IHl]; intros sub' fs Hfs Hs; [exact I|].
+  destruct sub' as [|x' t']; [contradiction|]. destruct Hs as [Hx Ht]. cbn [olist_le]. split.
+  - destruct x as [a|]; [|exact I]. destruct x' as [a'|]; [|contradiction].
+    destruct fs as [|f fs']; cbn [hd_error] in Hx; [exact Hx|].
+    destruct (Hfs f (or_introl eq_refl)) as (d & Ed & Hin). destruct (Hod d Ed) as [Hdm Hw].
+    unfold krel in Hx. destruct (fbody_of f) as [st0 sz0 ty rq| | |pi] eqn:Eb.
+    + apply (IH a a' (sub_of_ty m ty) true); [|exact Hx].
+      intros d' Ed'. split.
+      * destruct ty as [| tid args ad |]; cbn in Ed'; try discriminate. eapply nth_error_In; exact Ed'.
+      * right. unfold strict_targets in Hst. rewrite forallb_forall in Hst. specialize (Hst d Hdm).
+        rewrite forallb_forall in Hst. specialize (Hst f Hin). rewrite Eb, Ed' in Hst. exact Hst.
+    + exact Hx.
+    + exact Hx.
+    + unfold ple in Hx. destruct w; [|exact Hx]. destruct Hw as [Hw|Hw]; [discriminate|].
+      unfold no_params in Hw. rewrite forallb_forall in Hw. specialize (Hw f Hin). rewrite Eb in Hw. discriminate.
+  - apply (IHl t' (tl fs)); [|exact Ht]. intros f Hf. apply Hfs. destruct fs; [contradiction|right; exact Hf].
+Qed.
+
+Theorem prefix_stable_strict m :
+  wf_stable m = true -> strict_targets m = true ->
+  forall d ps fuel bytes extra, In d m ->
+    fle (eval_struct m bytes fuel d ps true (root bytes))
+        (eval_struct m (bytes ++ extra) fuel d ps true (root (bytes ++ extra))).
+Proof.
+  intros Hwf Hst d ps fuel bytes extra Hd.
+  apply (flet_strict m Hst _ _ (Some d) false).
+  - intros d0 E. inversion E; subst d0. split; [exact Hd|left; reflexivity].
+  - apply (prefix_stable_partial m Hwf d ps fuel bytes extra Hd).
+Qed.
+Print Assumptions prefix_stable_strict.
 
 (* The constant-size hypothesis is forced in the MODEL (the compiler never emits a scalar
    with a dynamic size, so this is not a finding):  0 [+1] UInt n ; 1 [+n] UInt:8 x *)
@@ -892,9 +1453,43 @@ Lemma const_size_hypothesis_forced :
 Proof.
   exists (nth 0 m_dyn (mk_sdef 8 0 [] [] 0 None)). split; [left; reflexivity|].
   unfold prefix_stable_at. intros H.
-  destruct (fle_sub_nth _ _ 1%nat _ H ltac:(vm_compute; reflexivity)) as (f' & Hn & Hf).
+  destruct (flet_sub_nth _ _ _ _ _ 1%nat _ H ltac:(vm_compute; reflexivity)) as (f' & Hn & Hf).
   vm_compute in Hn. inversion Hn; subst f'; clear Hn.
-  destruct (fle_ok _ _ Hf eq_refl) as [Hv _]. vm_compute in Hv. discriminate.
+  destruct (krel_wle _ _ _ _ _ Hf eq_refl) as [Hv _]. vm_compute in Hv. discriminate.
+Qed.
+
+(* "no $present() of a parameter slot" is forced in the MODEL (the front end folds $present(parameter)
+   to the constant true, so the translated modules never contain it; not a finding):
+   struct P(k: UInt:8):  0 [+1] UInt a ;  if $present(k): 1 [+1] UInt y
+   struct O:  0 [+1] UInt n ;  1 [+n] P(n) p        -- p().has_y() goes Known(false) -> Known(true) *)
+Definition m_hasp : module :=
+  [mk_sdef 8 0%nat
+     [mk_field ktrue (Phys (kz 0) (kz 1) (FScalar KU 8 LE) None);
+      mk_field ktrue (Phys (kz 1) (XField [0%nat]) (FStruct 1 [XField [0%nat]] None) None);
+      size_virt [(ktrue, kz 0, kz 1); (ktrue, kz 1, XField [0%nat])]]
+     [0; 1; 2]%nat 2%nat None;
+   mk_sdef 8 1%nat
+     [mk_field ktrue (Param 0);
+      mk_field ktrue (Phys (kz 0) (kz 1) (FScalar KU 8 LE) None);
+      mk_field (XHas [0%nat]) (Phys (kz 1) (kz 1) (FScalar KU 8 LE) None);
+      size_virt [(ktrue, kz 0, kz 1); (XHas [0%nat], kz 1, kz 1)]]
+     [0; 1; 2; 3]%nat 3%nat None].
+
+Example m_hasp_not_in_class : wf_stable m_hasp = false.
+Proof. reflexivity. Qed.
+
+Lemma present_of_parameter_hypothesis_forced :
+  exists d, In d m_hasp /\ ~ prefix_stable_at m_hasp d [] 8 [] [2; 7; 9].
+Proof.
+  exists (nth 0 m_hasp (mk_sdef 8 0 [] [] 0 None)). split; [left; reflexivity|].
+  unfold prefix_stable_at. intros H.
+  destruct (flet_sub_nth _ _ _ _ _ 1%nat _ H ltac:(vm_compute; reflexivity)) as (f' & Hn & Hf).
+  vm_compute in Hn. inversion Hn; subst f'; clear Hn.
+  change (flet m_hasp true (nth_error m_hasp 1)) with (flet m_hasp true (Some (nth 1 m_hasp (mk_sdef 8 0 [] [] 0 None)))) in Hf.
+  unfold krel in Hf. cbn [nth_error odfields fields nth m_hasp fbody_of sub_of_ty] in Hf.
+  destruct (flet_sub_nth _ _ _ _ _ 2%nat _ Hf ltac:(vm_compute; reflexivity)) as (y' & Hn & Hy).
+  vm_compute in Hn. inversion Hn; subst y'; clear Hn.
+  apply krel_has in Hy; [|reflexivity]. specialize (Hy false eq_refl). vm_compute in Hy. discriminate.
 Qed.
 
 (* ---------- the hypotheses are satisfiable, the conclusion is not vacuous ---------- *)
@@ -956,4 +1551,76 @@ Example wf_stable_example_nonvacuous :
 Proof.
   vm_compute. split; [do 3 eexists; repeat split; reflexivity|].
   repeat split; try reflexivity. do 2 eexists; repeat split; reflexivity.
+Qed.
+
+(* ---------- a parameterised nested structure is in the class ---------- *)
+(* struct Par(k: UInt:8):
+     0 [+1] UInt a  [requires: this < 100]
+     let s = a + k
+   struct Outer:
+     0 [+1] UInt n
+     1 [+n] Par(n) p
+     if p.s == 8:  n+1 [+1] UInt tail           -- reads a virtual field of the parameterised view *)
+Definition m_par : module :=
+  [mk_sdef 8 0%nat
+     [mk_field ktrue (Phys (kz 0) (kz 1) (FScalar KU 8 LE) None);
+      mk_field ktrue (Phys (kz 1) (XField [0%nat]) (FStruct 1 [XField [0%nat]] None) None);
+      mk_field (XCmp CEq (XField [1; 2]%nat) (kz 8))
+               (Phys (XAdd (XField [0%nat]) (kz 1)) (kz 1) (FScalar KU 8 LE) None);
+      size_virt [(ktrue, kz 0, kz 1); (ktrue, kz 1, XField [0%nat]);
+                 (XCmp CEq (XField [1; 2]%nat) (kz 8), XAdd (XField [0%nat]) (kz 1), kz 1)]]
+     [0; 1; 2; 3]%nat 3%nat None;
+   mk_sdef 8 1%nat
+     [mk_field ktrue (Param 0);
+      mk_field ktrue (Phys (kz 0) (kz 1) (FScalar KU 8 LE) (Some (XCmp CLt XSelf (kz 100))));
+      mk_field ktrue (Virt (XAdd (XField [1%nat]) (XField [0%nat])) None);
+      size_virt [(ktrue, kz 0, kz 1)]]
+     [0; 1; 2; 3]%nat 3%nat None].
+
+Example wf_stable_example_param : wf_stable m_par = true.
+Proof. reflexivity. Qed.
+Example wf_stable_example_param_not_strict : strict_targets m_par = false.
+Proof. reflexivity. Qed.
+Example wf_stable_example_strict : strict_targets m_ex = true.
+Proof. reflexivity. Qed.
+
+Definition d_par : sdef := nth 0 m_par (mk_sdef 8 0 [] [] 0 None).
+
+(* On the empty prefix n is unknown, so p is the default-constructed view: its parameter k is not
+   initialised (has_k Known(false)), nothing is Ok.  With the bytes [1; 7; 5] p is located with k = 1,
+   a = 7, s = 8, the conditional field tail is present and reads 5, the whole view is Ok. *)
+Example wf_stable_example_param_instance :
+  prefix_stable_at m_par d_par [] 8 [] [1; 7; 5].
+Proof. apply (prefix_stable_partial m_par wf_stable_example_param). left; reflexivity. Qed.
+
+(* a second instance: on the prefix [1] the view p is located (k = 1 known, has_k Known(true)) but
+   its field a lies beyond the buffer *)
+Example wf_stable_example_param_instance2 :
+  prefix_stable_at m_par d_par [] 8 [1] [7; 5].
+Proof. apply (prefix_stable_partial m_par wf_stable_example_param). left; reflexivity. Qed.
+
+Example wf_stable_example_param_nonvacuous :
+  let r := eval_struct m_par [] 8 d_par [] true (root []) in
+  let r1 := eval_struct m_par [1] 8 d_par [] true (root [1]) in
+  let r' := eval_struct m_par [1; 7; 5] 8 d_par [] true (root [1; 7; 5]) in
+  (exists p k, nth_error (fr_sub r) 1 = Some (Some p) /\ nth_error (fr_sub p) 0 = Some (Some k) /\
+               fr_has p = Some true /\ fr_ok p = false /\
+               fr_has k = Some false /\ fr_ok k = false) /\
+  fr_ok r = false /\ fr_ssize r = None /\
+  (exists p k a, nth_error (fr_sub r1) 1 = Some (Some p) /\ nth_error (fr_sub p) 0 = Some (Some k) /\
+               nth_error (fr_sub p) 1 = Some (Some a) /\
+               fr_has k = Some true /\ fr_ok k = true /\ fr_val k = Some (VInt 1) /\ fr_ok a = false) /\
+  (exists p k a sv tail, nth_error (fr_sub r') 1 = Some (Some p) /\ nth_error (fr_sub r') 2 = Some (Some tail) /\
+               nth_error (fr_sub p) 0 = Some (Some k) /\ nth_error (fr_sub p) 1 = Some (Some a) /\
+               nth_error (fr_sub p) 2 = Some (Some sv) /\
+               fr_ok p = true /\ fr_has k = Some true /\ fr_val k = Some (VInt 1) /\
+               fr_val a = Some (VInt 7) /\ fr_ok sv = true /\ fr_val sv = Some (VInt 8) /\
+               fr_has tail = Some true /\ fr_ok tail = true /\ fr_val tail = Some (VInt 5)) /\
+  fr_ok r' = true /\ fr_ssize r' = Some 3.
+Proof.
+  vm_compute. split; [do 2 eexists; repeat split; reflexivity|].
+  split; [reflexivity|]. split; [reflexivity|].
+  split; [do 3 eexists; repeat split; reflexivity|].
+  split; [do 5 eexists; repeat split; reflexivity|].
+  split; reflexivity.
 Qed.
